@@ -16,14 +16,17 @@ from ..gen import soup as gsoup
 DECL_ALL = ['\\LaTeX', '\\label{k}', '\\ref{k}', '\\cite{k}', '\\hfill', '\\S', '\\newline', '\\qquad', '\\footnotemark',
             '\\index{k}', '\\pageref{k}', '\\TeX', '\\par', '\\vspace{1ex}', '\\hspace{1cm}', '\\LTadd{x}', '\\ss{}']
 DECL_PKG = {'xcolor': ['\\textcolor{red}{x}', '\\color{red}', '\\colorbox{c}{x}'],
-            'amsmath': ['\\eqref{k}', '\\notag'],
+            'amsmath': ['\\eqref{k}', '\\notag', '\\begin{align} a &= b \\end{align}', '$a \\text{ x } b$'],
             'hyperref': ['\\texorpdfstring{a}{b}', '\\href{u}{x}', '\\url{u}'],
             'graphicx': ['\\includegraphics{f}'],
             'tikz': ['\\tikzset{a}', '\\begin{tikzpicture}\\end{tikzpicture}'],
             'biblatex': ['\\parencite{k}', '\\printbibliography'],
             'amsthm': ['\\begin{proof} x\\end{proof}', '\\theoremstyle{plain}'],
-            'listings': ['\\lstset{a}'],
-            'babel': ['\\selectlanguage{english}', '\\foreignlanguage{german}{x}'],
+            'listings': ['\\lstset{a}', '\\begin{lstlisting} x \\end{lstlisting}', '\\lstinputlisting{f}'],
+            'babel': ['\\selectlanguage{english}', '\\foreignlanguage{german}{x}',
+                      # (environments whose handlers work with internal helper macros)
+                      '\\begin{otherlanguage}{german} x \\end{otherlanguage} y',
+                      '\\begin{otherlanguage*}{french} x \\end{otherlanguage*} y'],
             'glossaries': ['\\glsdisp{l}{x}'],
             'xspace': ['\\xspace{}']}
 DECL_ENV = ['itemize', 'enumerate', 'figure', 'table', 'tabular{c}', 'minipage{3cm}', 'verbatim']
